@@ -49,6 +49,8 @@ Definition cover (s : state) (e : nat) : bool :=
 Definition hsusp (s : state) : option nat := match s.(jobs) with j :: _ => susp j | [] => None end.
 Definition awoken (s : state) : bool := match s.(qs) with AwokenWhileRunning => true | _ => false end.
 Definition tokb (s : state) (c : nat) : bool := default false (toks s !! c).
+(* the context waker a job is polled with *)
+Definition ctxw (c : nat) (k : kont) : waker := match k with KDrain => WQueue | KRoj => WThread c | KDq f d => WDrain d end.
 (* the obligation attached to a frame of actor c *)
 Definition frame_ok (s : state) (c : nat) (fr : frame) : bool :=
   match fr with
@@ -61,6 +63,7 @@ Definition frame_ok (s : state) (c : nat) (fr : frame) : bool :=
                  | None => false end
   | FDQrequeue f d j => match susp j with Some e => gd s e d | None => false end
   | FDQtake2 f d | FDQwfw f d | FDQstore f d | FDQwfp f d => match hsusp s with Some e => gd s e d | None => false end
+  | FJob j w k => bool_decide (w = ctxw c k)
   | _ => true
   end.
 Definition frames_ok (s : state) : bool :=
